@@ -86,7 +86,10 @@ CHECK_DEADLOCK FALSE
 """ % ("TRUE" if esc else "FALSE")
 
 
-def cfg_svc(esc, maxsteps, varids, updids, require=True, gen=False, invs=True):
+SVC_INVS = "INVARIANTS TypeOK CacheTransparent RequestExact ResolvedExistsNow MostSpecificNow PayloadNow"
+
+
+def cfg_svc(esc, maxsteps, varids, updids, require=True, gen=False, invs=True, focus=None, storeinit=(0, 1), editvals=(0, 1, 2)):
     return """SPECIFICATION %s
 CONSTANTS
   AutoEscape = %s
@@ -94,10 +97,15 @@ CONSTANTS
   VarIds = {%s}
   UpdIds = {%s}
   RequireInvalidate = %s
+  ExistsRefreshes = TRUE
+  StoreInit = {%s}
+  EditVals = {%s}
+%s
 %s
 CHECK_DEADLOCK FALSE
 """ % ("GenSpec" if gen else "Spec", "TRUE" if esc else "FALSE", maxsteps, ", ".join(map(str, varids)), ", ".join(map(str, updids)),
-       "TRUE" if require else "FALSE", "INVARIANTS TypeOK CacheTransparent RequestExact" if invs else "")
+       "TRUE" if require else "FALSE", ", ".join(map(str, storeinit)), ", ".join(map(str, editvals)),
+       ('  Focus = "%s"' % focus) if gen else "", SVC_INVS if invs else "")
 
 
 def cfg_svc_trace(esc):
@@ -108,6 +116,9 @@ CONSTANTS
   VarIds = {1}
   UpdIds = {1}
   RequireInvalidate = FALSE
+  ExistsRefreshes = TRUE
+  StoreInit = {0}
+  EditVals = {0, 1, 2}
 INVARIANT PrintEnd
 CHECK_DEADLOCK FALSE
 """ % ("TRUE" if esc else "FALSE")
@@ -119,14 +130,17 @@ def beh_to_scenario(sid, beh, origin="simulate"):
     for (_, _, st) in beh[1:]:
         r = from_tla(st["req"])
         step = {"a": r["op"]}
-        if r["op"] in ("Process", "Raw", "Update"):
+        if r["op"] in ("Process", "Raw", "Update", "ExternalEdit", "Resolve", "GetX"):
             step["e"] = r["e"]
+        if r["op"] == "ExternalEdit":
+            step["v"] = st["store"][r["e"]]
         if r["op"] == "Process":
             step["vars"] = r["vars"]
         if r["op"] == "Update":
             step["parts"] = r["parts"]
         steps.append(step)
-    return {"id": sid, "origin": origin, "content": from_tla(beh[0][2]["content"]), "steps": steps}
+    return {"id": sid, "origin": origin, "content": from_tla(beh[0][2]["content"]), "store": from_tla(beh[0][2]["store"]),
+            "steps": steps}
 
 
 def par_run(fn, items, nproc):
@@ -202,6 +216,9 @@ def run(ctx):
         "util.PrefixedOverride / PrefixedOverride - the only utility reading the variable stack -, strings.ToUpper, include); the "
         "documented protocol is assumed: after an entry is updated the template cache is invalidated before the next processed "
         "request (a processed request while an update is pending invalidation is recorded and modelled, but not judged)",
+        "the backing store is the FILE backend; an external writer replaces the whole file between two requests (never during "
+        "one); the four candidates c/{PHYSICS,ANY}/{r,any}/x are added / replaced / removed; the Consul backend keeps no "
+        "copy of the store (every Exists/Get is a KV read) and is not driven",
     ]
     ctx.rule = ("case = one input (query string / parameter string / query+backend / template+variables) enumerated by TLC from "
                 "spec/ConfigQueryGen.tla (exhaustive within bounds) or spec/ConfigQueryEdit.tla (tlc -simulate, seeded); every case "
@@ -219,8 +236,8 @@ def run(ctx):
             ("rnd", cfg_gen(esc, ["rnd"], INV_RND, rndmaxparts=2)),      # stops at a counterexample when AutoEscape
         ]
         nsim, nsimjobs, depth, maxedits, maxseg = 300, 1, 30, 2, 3
-        svc_model = cfg_svc(esc, 4, [1, 3, 4, 8], [1, 2])
-        svc_nsim, svc_steps = 250, 9
+        svc_models = [("svc-model", cfg_svc(esc, 3, [3, 4], [1], storeinit=[0], editvals=[0, 1, 2]))]
+        svc_nsim, svc_steps = 400, 9
     else:
         jobs = [
             ("str-exhaustive", cfg_gen(esc, ["str"], INV_STR, alphabet=NARROW, maxlen=7)),
@@ -236,11 +253,12 @@ def run(ctx):
         for f in ("a", "X", "_"):
             jobs.append(("str-catalogue-" + f, cfg_gen(esc, ["str"], INV_STR, qsegmax=2, qfirst=[f])))
         nsim, nsimjobs, depth, maxedits, maxseg = 1250, 2, 40, 3, 4
-        svc_model = cfg_svc(esc, 5, [1, 2, 3, 4, 5, 8], [1, 2, 4])
-        svc_nsim, svc_steps = 2500, 14
+        svc_models = [("svc-model-render", cfg_svc(esc, 5, [1, 2, 3, 4, 5, 8], [1, 2, 4], storeinit=[0], editvals=[])),
+                      ("svc-model-store", cfg_svc(esc, 5, [], [], storeinit=[0, 1], editvals=[0, 1, 2]))]
+        svc_nsim, svc_steps = 4000, 14
 
     simjobs = [("simulate-%d" % i, cfg_edit(esc, maxedits, maxseg)) for i in range(1, nsimjobs + 1)]
-    svcjobs = [("svc-simulate", cfg_svc(esc, svc_steps, range(1, 10), range(1, 5), gen=True, invs=True)), ("svc-model", svc_model)]
+    svcjobs = [("svc-simulate", cfg_svc(esc, svc_steps, range(1, 10), range(1, 5), gen=True, invs=True, focus="mixed"))] + svc_models
 
     def gen(job):
         label, cfg = job
@@ -251,7 +269,7 @@ def run(ctx):
         if label == "svc-simulate":
             return ctx.tlc("ConfigQuerySvcGen", None, workers=1, sim="file=sim/b,num=%d" % svc_nsim, cfg_text=cfg, timeout=900,
                            extra=["-depth", str(svc_steps + 1), "-seed", str(ctx.seed * 7919 + 77)], files={"sim/.keep": ""})
-        if label == "svc-model":
+        if label.startswith("svc-model"):
             return ctx.tlc("ConfigQuerySvc", None, workers=2, cfg_text=cfg, timeout=900)
         return ctx.tlc("ConfigQueryGen", None, workers=1, cfg_text=cfg, timeout=900)
 
@@ -260,7 +278,8 @@ def run(ctx):
         building = bx.submit(ctx.build, "configquery")                # the driver is built while TLC enumerates
         results = par_run(gen, simjobs + svcjobs + jobs, nproc)       # the simulations are the longest jobs: start them first
         binp = building.result()
-    simresults, svcresults, results = results[:nsimjobs], results[nsimjobs:nsimjobs + 2], results[nsimjobs + 2:]
+    nsvc = len(svcjobs)
+    simresults, svcresults, results = results[:nsimjobs], results[nsimjobs:nsimjobs + nsvc], results[nsimjobs + nsvc:]
     cases, seen, origin = [], {}, {}
     predicted = []          # (invariant, case) model counterexamples to be reproduced on the real code
     complete = True
@@ -333,18 +352,19 @@ def run(ctx):
     ctx.log("generated %d cases (%d from exhaustive enumeration, %d behaviours simulated) in %.1fs"
             % (len(cases), nexh, len(behs), time.time() - t0))
     # ---- request sequences against one service: exhaustive model check + simulated scenarios
-    rsim, rmod = svcresults
+    rsim, rmods = svcresults[0], svcresults[1:]
     scenarios, spredicted = [], []
-    if rmod.crashed or (rmod.generated == 0 and not rmod.violated):
-        ctx.save_debug(rmod, "tlc_ConfigQuerySvc.txt")
-        raise vlib.Inconclusive("TLC failed on ConfigQuerySvc (rc=%d): %s" % (rmod.rc, vlib.tail(rmod.out)))
-    ctx.states += rmod.distinct
-    ctx.transitions += rmod.generated
-    ctx.model_runs.append({"module": "ConfigQuerySvc", "cfg": "exhaustive", "distinct": rmod.distinct, "generated": rmod.generated,
-                           "result": "ok" if rmod.no_error else "violated:" + ",".join(rmod.violated), "wall_s": round(rmod.wall, 1)})
-    ctx.log("model ConfigQuerySvc: %d distinct, %d generated, %s (%.1fs)" % (rmod.distinct, rmod.generated,
-                                                                             ctx.model_runs[-1]["result"], rmod.wall))
-    for r, org in ((rmod, "model-counterexample"), (rsim, "simulation-counterexample")):
+    for (label, _), rmod in zip(svc_models, rmods):
+        if rmod.crashed or (rmod.generated == 0 and not rmod.violated):
+            ctx.save_debug(rmod, "tlc_ConfigQuerySvc.txt")
+            raise vlib.Inconclusive("TLC failed on ConfigQuerySvc/%s (rc=%d): %s" % (label, rmod.rc, vlib.tail(rmod.out)))
+        ctx.states += rmod.distinct
+        ctx.transitions += rmod.generated
+        ctx.model_runs.append({"module": "ConfigQuerySvc", "cfg": label, "distinct": rmod.distinct, "generated": rmod.generated,
+                               "result": "ok" if rmod.no_error else "violated:" + ",".join(rmod.violated), "wall_s": round(rmod.wall, 1)})
+        ctx.log("model ConfigQuerySvc/%s: %d distinct, %d generated, %s (%.1fs)" % (label, rmod.distinct, rmod.generated,
+                                                                                    ctx.model_runs[-1]["result"], rmod.wall))
+    for r, org in [(x, "model-counterexample") for x in rmods] + [(rsim, "simulation-counterexample")]:
         if r.violated:
             complete = False
             cex = r.counterexample()
@@ -473,7 +493,8 @@ def execute(ctx, esc, cases, origin, nproc, predicted=(), scenarios=(), spredict
     by_id = {x["id"]: x for x in scenarios}
     for x in scenarios:
         ctx.count_case("seq:" + json.dumps([x["content"], x["steps"]], sort_keys=True),
-                       nontrivial=sum(1 for st in x["steps"] if st["a"] == "Process") >= 2)
+                       nontrivial=sum(1 for st in x["steps"] if st["a"] == "Process") >= 2
+                       or any(st["a"] == "ExternalEdit" for st in x["steps"]))
     for d in sdrift:
         ctx.drift.append({"scn": d[1], "line": d[2], "event": d[3], "origin": by_id.get(d[1], {}).get("origin"),
                           "recorded": slines[d[2] - 1] if 0 < d[2] <= len(slines) else None})
@@ -482,13 +503,14 @@ def execute(ctx, esc, cases, origin, nproc, predicted=(), scenarios=(), spredict
     for v in sviol:
         inv, scn, line, detail = v[1], v[2], v[3], v[4]
         sflagged.add(scn)
-        api = "GetAndProcessComponentConfiguration" if detail[1] == "Process" else "GetComponentConfiguration"
-        sgroups.setdefault((inv, api, detail[0]), []).append((scn, line))
+        api = {"Process": "GetAndProcessComponentConfiguration", "Resolve": "ResolveComponentQuery"}.get(detail[1], "GetComponentConfiguration")
+        sgroups.setdefault((inv, api, detail[0]), []).append((scn, line, detail))
     for (inv, api, cause), hits in sorted(sgroups.items()):
-        scn, line = hits[0]
+        scn, line, detail = hits[0]
         ctx.add_violation({"inv": inv, "api": api, "cause": cause, "scn": scn, "line": line, "requests_flagged": len(hits),
                            "sequences_flagged": len({h[0] for h in hits}), "origin": by_id.get(scn, {}).get("origin"),
-                           "request": {k: slines[line - 1].get(k) for k in ("e", "path", "varsReal", "ok", "payload")}},
+                           "request": {k: slines[line - 1].get(k) for k in ("e", "path", "varsReal", "ok", "payload")},
+                           "store_now": detail[3] if detail[0] == "store-now" else None},
                           replay_obj={"scenario": by_id.get(scn), "trace": [x for x in slines if x.get("scn") == scn]})
     for (inv, sid) in spredicted:
         if sid not in sflagged:
